@@ -138,6 +138,64 @@ impl Frame {
 	ensures res == self.id@.len(),
 //@end
 }
+
+// ---------------- C13: the single-frame row view of the in-progress columns ----------------
+pub open spec fn data_row_eq(d: &Data, row: &transpose::Data, i: int) -> bool { d.pre.row_eq(row.pre, i) && d.post.row_eq(row.post, i) }
+pub open spec fn port_row_eq(p: &PortData, row: &transpose::PortData, i: int) -> bool {
+	&&& row.port == p.port && data_row_eq(&p.leader, &row.leader, i)
+	&&& (row.follower is Some) == (p.follower is Some) && (p.follower is Some ==> data_row_eq(&p.follower->Some_0, &row.follower->Some_0, i))
+}
+// row i of every column exists (the frame is complete)
+pub open spec fn data_has_row(d: &Data, v: Version, i: int) -> bool { data_wf(d, v) && i < d.pre.len_spec() && i < d.post.len_spec() }
+pub open spec fn port_has_row(p: &PortData, v: Version, i: int) -> bool { data_has_row(&p.leader, v, i) && (p.follower is Some ==> data_has_row(&p.follower->Some_0, v, i)) }
+pub open spec fn frame_has_row(f: &Frame, v: Version, i: int) -> bool {
+	&&& frame_swf(f, v) && 0 <= i < f.id@.len()
+	&&& forall|k: int| 0 <= k < f.ports@.len() ==> port_has_row(#[trigger] &f.ports@[k], v, i)
+	&&& (v.ge(2, 2) ==> i < f.start->Some_0.len_spec())
+	&&& (v.ge(3, 0) ==> i < f.end->Some_0.len_spec() && i + 1 < f.item_offset->Some_0@.len()
+			&& 0 <= f.item_offset->Some_0@[i] <= f.item_offset->Some_0@[i + 1] <= f.item->Some_0.len_spec())
+}
+impl Data {
+//@fn src/frame/mutable.rs | impl Data | transpose_one | ret=res
+	requires data_has_row(self, version, i as int),
+	ensures data_row_eq(self, &res, i as int) /*[C13.mutable.character_row]*/,
+//@end
+}
+impl PortData {
+//@fn src/frame/mutable.rs | impl PortData | transpose_one | ret=res
+	requires port_has_row(self, version, i as int),
+	ensures port_row_eq(self, &res, i as int) /*[C13.mutable.port_row]*/,
+//@end
+}
+impl Frame {
+//@fn src/frame/mutable.rs | impl Frame | transpose_one | ret=res
+	requires frame_has_row(self, version, i as int),
+	ensures
+		res.id == self.id.values_spec()[i as int] /*[C13.mutable.frame_id]*/,
+		res.ports@.len() == self.ports@.len() && (forall|k: int| 0 <= k < self.ports@.len() ==> port_row_eq(#[trigger] &self.ports@[k], &res.ports@[k], i as int)) /*[C13.mutable.ports]*/,
+		(res.start is Some) == version.ge(2, 2) && (version.ge(2, 2) ==> self.start->Some_0.row_eq(res.start->Some_0, i as int)) /*[C13.mutable.start]*/,
+		(res.end is Some) == version.ge(3, 0) && (version.ge(3, 0) ==> self.end->Some_0.row_eq(res.end->Some_0, i as int)) /*[C13.mutable.end]*/,
+		(res.items is Some) == version.ge(3, 0) /*[C13.mutable.items_iff_3_0]*/,
+		version.ge(3, 0) ==> ({
+			let lo = self.item_offset->Some_0@[i as int] as int;
+			let hi = self.item_offset->Some_0@[i as int + 1] as int;
+			&&& res.items->Some_0@.len() == hi - lo
+			&&& forall|k: int| 0 <= k < hi - lo ==> self.item->Some_0.row_eq(#[trigger] res.items->Some_0@[k], lo + k)
+		}) /*[C13.mutable.items_are_the_offset_slice]*/,
+//@loop 1
+		invariant ic__ <= self.ports@.len(), out__@.len() == ic__, frame_has_row(self, version, i as int),
+			forall|k: int| 0 <= k < ic__ ==> port_row_eq(#[trigger] &self.ports@[k], &out__@[k], i as int),
+		decreases self.ports@.len() - ic__,
+//@before let (start, end)
+				let ghost fi = i as int;
+//@loop 2
+		invariant frame_has_row(self, version, fi), version.ge(3, 0),
+			start == self.item_offset->Some_0@[fi], endc__1 == end, end == self.item_offset->Some_0@[fi + 1],
+			start <= i <= end, out__1@.len() == i - start,
+			forall|k: int| 0 <= k < i - start ==> self.item->Some_0.row_eq(#[trigger] out__1@[k], start + k),
+		decreases end - i,
+//@end
+}
 '''
 
 PART_B = r'''
@@ -196,6 +254,13 @@ pub fn game_end(r: &mut &[u8]) -> (res: Result<game::End>)
 { unimplemented!() }
 
 impl ParseState {
+// the in-progress view: ParseState::frame(idx) (impl game::Game for ParseState) is the row view of the mutable columns
+//@fn src/io/slippi/de.rs | impl game::Game for ParseState | frame | ret=res | twin=__view
+	requires frame_has_row(&self.game.frames, ver(self), idx as int),
+	ensures res.id == self.game.frames.id.values_spec()[idx as int] /*[C13.in_progress_frame_is_row_idx]*/,
+		res.ports@.len() == self.game.frames.ports@.len() && (forall|k: int| 0 <= k < self.game.frames.ports@.len() ==> port_row_eq(#[trigger] &self.game.frames.ports@[k], &res.ports@[k], idx as int)),
+		(res.start is Some) == ver(self).ge(2, 2), (res.end is Some) == ver(self).ge(3, 0), (res.items is Some) == ver(self).ge(3, 0) /*[C13.in_progress_absent_fields_by_version]*/,
+//@end
 //@fn src/io/slippi/de.rs | impl ParseState | last_id | ret=res | rules=R6b | sub=/self.game.frames.id.values().last().map(|id| *id)/(match self.game.frames.id.values().last() { Some(id) => Some(*id), None => None })/
 	ensures res == last_id_spec(self),
 //@end
@@ -677,7 +742,7 @@ def template(repo, for_reader=False):
     out = [HEADER]
     out.append(PART_0)
     out.append('pub mod transpose {\nuse super::*;')
-    for s in gen_codec.ORDER:
+    for s in gen_codec.ORDER + ['Data', 'PortData', 'Frame']:
         out.append('//@struct src/frame/transpose.rs %s' % s)
     out.append('}')
     out.append('pub mod mutable {\nuse vstd::prelude::*;\nuse super::*;\ntype Result<T> = std::result::Result<T, IoError>;')
